@@ -2,7 +2,7 @@
 //
 //	direct*.go : the direct monitor - a rich generator of checker-accepted Cadence programs, run in both
 //	             engines; any internal error / unexpected error / Go panic is a finding (independent of the model)
-//	frag*.go   : the modelled fragment - typed mini-Cadence programs emitted as Cadence source and as Coq terms,
+//	frag/*.go  : the modelled fragment (package cvh/c01/frag) - typed mini-Cadence programs emitted as Cadence source and as Coq terms,
 //	             run in both engines and written to Coq case files (verdict + outcome correspondence)
 //	probe.go   : development aid (-probe file)
 package main
@@ -12,6 +12,7 @@ import (
 	"fmt"
 	"os"
 
+	"cvh/c01/frag"
 	"cvh/lib"
 )
 
@@ -37,7 +38,7 @@ func main() {
 		RunDirect(lib.NewRng(*seed*2+1), *tier, sum)
 	}
 	if *only == "" || *only == "frag" {
-		RunFragment(lib.NewRng(*seed*2), *tier, *dir, sum)
+		frag.RunFragment(lib.NewRng(*seed*2), *tier, *dir, sum)
 	}
 	sum.Rule = "a generated program counts as non-trivial when the real checker accepts it and it executes at least one " +
 		"statement beyond `return <literal>` in both engines; distinct = distinct program texts"
